@@ -173,3 +173,16 @@ chk("C12", "exploration",
     "unique marker symbol so that the process-wide content-hash-keyed caches cannot mix histories (the cross-registry effect is "
     "C13's subject).",
     "exhaustive BFS over edit histories + Hypothesis long histories vs dict model (model-based testing)", "DESIGN.md §3 C12")
+chk("C13", "exploration",
+    "Hypothesis interleavings over 2-4 custom registries created by every route (UnitRegistry(), several with identical contents, "
+    "lut= own dict, from_json, unpickling, deepcopy, Unit.copy(deep=True), non-default unit system) and the default registry: 21 "
+    "operations (edits, unit construction, arithmetic, add_symbols/add_constants namespaces, UnitSystem creation, pickle / JSON / "
+    "deepcopy round trips followed by edits of the restored registry, mixed-registry arithmetic, modify/remove attempts on the "
+    "default table through the registry, through units, through shallow copies). After every step a digest of every registry "
+    "(20 probe strings, arithmetic / conversion / base-reduction results, registry identity of results) must be unchanged for "
+    "every registry not acted on, and an import-time snapshot of the default registry, default_unit_symbol_lut, exported units and "
+    "constants and a conversion panel must be intact.",
+    "Trusted: the digest as the definition of 'what a registry resolves'. Pure observations (unit construction, arithmetic, "
+    "namespaces, round trips) may not change anything observable even in the registry they go through. add/define_unit on the "
+    "default registry are legitimate writers and are not exercised.",
+    "Hypothesis-generated operation interleavings with per-registry digest invariants (stateful / model-based)", "DESIGN.md §3 C13")
